@@ -213,6 +213,7 @@ def run(rep, facts, tier):
     for name, cfg in cfgs.items():
         loc = G.base_summaries_M(cfg, rep) if name == "M" else {}
         G.check_select(rep, cfg)            # the constant-time ladder is only as good as the selection it is built on
+        G.config_hooks(rep, cfg, "C05")
         ops = G.enumerate_ops(cfg, TRAITS)
         n = 0
         for path, b, tr, sorts in ops:
